@@ -35,7 +35,8 @@ void Runner::viol(const char *prop, const std::string &cls, const std::string &s
   // children (C20) as well as a violation of the single-threaded property
   static const char *const xt[] = { "stdin-corrupted", "stdin-duplicated", "stdin-lost", "no-eof-after-close", "output-corrupted", "wrong-status", "double-close", "foreign-close", "closed-stream-not-reported", "closed-error-on-open-stdin", "wrong-working-directory", "wrong-program-resolved",
                                      "environment-differs", "descriptor-inherited", "cwd-changed", "environ-changed", "stream-misconnected", "wrong-error", "signal-mask-changed",
-                                     "child-mask-not-empty", "child-umask-differs", "blocks-past-bound", "wait-deadline-early", "deadline-event-early", "deadline-missed", "wait-timeout-early" };
+                                     "child-mask-not-empty", "child-umask-differs", "blocks-past-bound", "wait-deadline-early", "deadline-event-early", "deadline-missed", "wait-timeout-early",
+                                     "reap-of-foreign-or-reaped", "reap-of-nonpositive-pid", "signal-to-foreign-or-reaped", "signal-to-nonpositive-pid", "no-status-for-dead-child" };
   if (tpos.size() > 1 && strcmp(prop, "C20") != 0)
     for (const char *c : xt)
       if (cls == c) { viol("C20", "cross-talk-" + cls, sigrest, detail, op); break; }
